@@ -335,7 +335,13 @@ class DiffXReader(object):
 
                 self._file_newlines = b'\n'
 
-        assert header.endswith(self._file_newlines)
+        if not header.endswith(self._file_newlines):
+            # This header doesn't use the same newlines as the headers
+            # before it.
+            raise DiffXParseError(
+                'Unexpected or improperly formatted header: %r' % header,
+                linenum=linenum)
+
         header = header[:-len(self._file_newlines)]
 
         m = self._HEADER_RE.match(header)
